@@ -810,6 +810,11 @@ def csv_to_merchants_content(csv_rules: List[Tuple]) -> str:
             pattern, merchant, category, subcategory = rule
             parsed = None
 
+        # A row with neither category nor tags never had any effect on classification,
+        # and a section without 'category:' and 'tags:' would make the whole file unloadable
+        if not category and not tags:
+            continue
+
         # Build match expression
         parts = []
         if pattern:
